@@ -299,7 +299,9 @@ RemoveKind(s, p, name) ==
 \* rewrite referrers: every key of the reverse map with component prefix old is re-keyed; each listed referrer gets the new text.
 \* "F5" in KF: the re-keyed list REPLACES a list already present under the new key (insert); intended: lists are merged.
 RECURSIVE SetTexts(_, _, _)
+\* (id 0 in a referrer list: an entry whose element no longer exists, see Load)
 SetTexts(s, ids, val) == IF ids = <<>> THEN s
+                         ELSE IF Head(ids) = 0 THEN SetTexts(s, Tail(ids), val)
                          ELSE SetTexts([s EXCEPT !.n[Head(ids)].cont = <<CItem(val)>> \o Drop(@, 1)], Tail(ids), val)
 RECURSIVE MergeSorted(_, _)
 MergeSorted(a, b) == IF b = <<>> THEN a ELSE MergeSorted(InsSorted(a, Head(b)), Tail(b))
@@ -883,7 +885,7 @@ Renumber(s, m, base) ==
   IN [s EXCEPT !.n = [j \in 1..(base + Len(order)) |-> MapNode(s.n[IF j <= base THEN j ELSE order[j - base]])],
                !.root[m] = Map(@),
                !.idx[m] = {<<e[1], Map(e[2])>> : e \in {x \in @ : Map(x[2]) # 0}},
-               !.refo[m] = {<<e[1], SortNat(SelectSeq([j \in 1..Len(e[2]) |-> Map(e[2][j])], LAMBDA x : x # 0))>> : e \in @}]
+               !.refo[m] = {<<e[1], SortNat([j \in 1..Len(e[2]) |-> Map(e[2][j])])>> : e \in @}]
 
 \* the catalogue of documents (rendered to text for the real library by LoadText)
 PkgA(c) == DNamed("AR-PACKAGE", "a", c)
@@ -920,8 +922,12 @@ RegisterIdents(s, m, ids) ==
   ELSE LET e == Head(ids)
            pp == ApiPath(s, e) IN
        RegisterIdents(IF pp.t = "ok" /\ Lookup(s, m, pp.v) = 0 THEN AddIdx(s, m, pp.v, e) ELSE s, m, Tail(ids))
-RECURSIVE RegisterRefs(_, _, _)
-RegisterRefs(s, m, ids) == IF ids = <<>> THEN s ELSE RegisterRefs(AddRefo(s, m, CData(s, Head(ids)).v, Head(ids)), m, Tail(ids))
+RECURSIVE RegisterRefs(_, _, _, _)
+\* every reference element of the file is entered in the referrer lists - also those that were merged away with their
+\* parent (the model already had the same element): such an entry designates nothing any more (id 0 in the lists)
+RegisterRefs(s, m, ids, alive) ==
+  IF ids = <<>> THEN s
+  ELSE RegisterRefs(AddRefo(s, m, CData(s, Head(ids)).v, IF Head(ids) \in alive THEN Head(ids) ELSE 0), m, Tail(ids), alive)
 
 Load(s, m, dname, fname, len) ==
   IF \E j \in 1..Len(s.files[m]) : s.f[s.files[m][j]].name = fname THEN {Fail(s, "DuplicateFilenameError")}
@@ -959,7 +965,7 @@ Load(s, m, dname, fname, len) ==
   IF ~merged.ok THEN {Fail(s, "InvalidFileMerge")}
   ELSE LET alive == SeqToSet(Dfs(merged.s, merged.s.root[m]))
            s2 == RegisterIdents(merged.s, m, SelectSeq(idents, LAMBDA i : i \in alive))
-           s3 == RegisterRefs(s2, m, SelectSeq(refs, LAMBDA i : i \in alive))
+           s3 == RegisterRefs(s2, m, refs, alive)
            s4 == [s3 EXCEPT !.files[m] = Append(@, fid)]
        IN {Ok(Renumber(s4, m, base), fid)}
 
